@@ -84,6 +84,7 @@ type WorkerOut struct {
 	WallS      float64           `json:"wall_s"`
 	ListViaIt  bool              `json:"list_via_iterate"`
 	Extra      map[string]int64  `json:"extra,omitempty"`
+	Digest     uint64            `json:"digest,string"` // fold of every run's event-log hash, in run order
 	Blocked    int               `json:"blocked,omitempty"`
 	BlockedRun int               `json:"blocked_run,omitempty"`
 }
@@ -151,6 +152,7 @@ func worldWorker() {
 		}
 		out.Exempt += res.Exempt
 		states.Add(res.Hash)
+		out.Digest = out.Digest*1099511628211 ^ res.Hash
 		if res.NonTriv {
 			if _, ok := seen[res.Hash]; !ok {
 				seen[res.Hash] = struct{}{}
